@@ -29,7 +29,7 @@ Ltac inv H := inversion H; clear H; repeat match goal with | [ E : ?x = ?y |- _ 
 Definition after_failure (fl : flavour) (c : cmd) (s : state) : state :=
   match c with
   | CInst _ => clear_one s
-  | CBind _ _ => match fl with FAssembler => clear_comment s | _ => s end
+  | CBind _ _ | CBindAtomic _ _ => match fl with FAssembler => clear_comment s | _ => s end
   | _ => s
   end.
 
@@ -99,10 +99,17 @@ Proof.
       destruct (s1 =? s2); inv H; discriminate.
     + unfold embed_label_builder in H. destruct ((size =? 0) || is_pow2_up_to size 8); inv H; [discriminate | reflexivity].
     + unfold embed_label_builder in H. destruct ((size =? 0) || is_pow2_up_to size 8); inv H; [discriminate | reflexivity].
+  - (* CBindAtomic *)
+    destruct fl.
+    + unfold bind_assembler_atomic in H.
+      destruct (nthZ (st_labels s) id) as [[p | sec off] |]; try (inv H; reflexivity).
+      destruct (0 <? Z.min patchfail (count_resolvable (st_cur s) p)); inv H; [reflexivity | discriminate].
+    + unfold bind_builder in H. destruct (nthZ (st_labels s) id) as [[[| f p] | sec off] |]; inv H; try discriminate; reflexivity.
+    + unfold bind_builder in H. destruct (nthZ (st_labels s) id) as [[[| f p] | sec off] |]; inv H; try discriminate; reflexivity.
 Qed.
 
 Lemma persistent_after_failure : forall fl c s, persistent (after_failure fl c s) = persistent s.
-Proof. intros fl c s; destruct c; try reflexivity. destruct fl; reflexivity. Qed.
+Proof. intros fl c s; destruct c; try reflexivity; destruct fl; reflexivity. Qed.
 
 (* ---------------------------------------------------------------- C14 theorems *)
 (* a failed call appends no bytes, creates no labels / fixups / relocations / address-table entries / nodes, does not
@@ -113,6 +120,21 @@ Theorem failed_call_no_effect : forall fl a h s c s' o,
 Proof.
   intros. rewrite (failed_step_state _ _ _ _ _ _ _ H H0 H1). apply persistent_after_failure.
 Qed.
+
+(* on a tree whose bind is atomic (every bind is a CBindAtomic) no guard is needed: EVERY failed call is free of effects *)
+Definition no_legacy_bind (c : cmd) : bool := match c with CBind _ _ => false | _ => true end.
+
+Theorem failed_call_no_effect_atomic : forall fl a h s c s' o,
+  no_legacy_bind c = true -> step fl a h s c = (s', o) -> failed o = true -> persistent s' = persistent s.
+Proof.
+  intros fl a h s c s' o N H F. eapply failed_call_no_effect; try eassumption.
+  intros [_ [[id [pf E]] _]]. subst c. discriminate N.
+Qed.
+
+Example atomic_bind_refuses : 
+  step FAssembler X86_64 HReturn (mkState [200] 0 [LUnbound [mkFix 0 false]] 1 0 0 0 one_clear) (CBindAtomic 0 1)
+  = (mkState [200] 0 [LUnbound [mkFix 0 false]] 1 0 0 0 one_clear, report HReturn kInvalidDisplacement).
+Proof. reflexivity. Qed.
 
 (* the guard is necessary: the faithful model of bind_label binds the label although it reports kInvalidDisplacement *)
 Theorem failed_bind_displacement_refuted : exists fl a h s c s' o,
@@ -232,6 +254,20 @@ Proof.
       apply (R kInvalidOperandSize); [discriminate | left; reflexivity].
     + unfold embed_label_builder in H. destruct ((size =? 0) || is_pow2_up_to size 8); inv H; [discriminate |].
       apply (R kInvalidOperandSize); [discriminate | left; reflexivity].
+  - (* CBindAtomic *)
+    destruct fl.
+    + unfold bind_assembler_atomic in H.
+      destruct (nthZ (st_labels s) id) as [[p | sec off] |].
+      * destruct (0 <? Z.min patchfail (count_resolvable (st_cur s) p)); inv H; [| discriminate].
+        apply (R kInvalidDisplacement); [discriminate | left; reflexivity].
+      * inv H. apply (R kLabelAlreadyBound); [discriminate | left; reflexivity].
+      * inv H. apply (R kInvalidLabel); [discriminate | left; reflexivity].
+    + unfold bind_builder in H. destruct (nthZ (st_labels s) id) as [[[| f p] | sec off] |]; inv H; try discriminate;
+        try (apply (R kLabelAlreadyBound); [discriminate | left; reflexivity]);
+        apply (R kInvalidLabel); [discriminate | left; reflexivity].
+    + unfold bind_builder in H. destruct (nthZ (st_labels s) id) as [[[| f p] | sec off] |]; inv H; try discriminate;
+        try (apply (R kLabelAlreadyBound); [discriminate | left; reflexivity]);
+        apply (R kInvalidLabel); [discriminate | left; reflexivity].
 Qed.
 
 Theorem success_reports_nothing : forall fl a h s c s' o,
@@ -291,6 +327,15 @@ Proof.
       destruct (s1 =? s2); inv H; reflexivity.
     + unfold embed_label_builder in H. destruct ((size =? 0) || is_pow2_up_to size 8); inv H; [reflexivity |]. eapply R; [| reflexivity]; discriminate.
     + unfold embed_label_builder in H. destruct ((size =? 0) || is_pow2_up_to size 8); inv H; [reflexivity |]. eapply R; [| reflexivity]; discriminate.
+  - destruct fl.
+    + unfold bind_assembler_atomic in H.
+      destruct (nthZ (st_labels s) id) as [[p | sec off] |].
+      * destruct (0 <? Z.min patchfail (count_resolvable (st_cur s) p)); inv H; [| reflexivity].
+        eapply R; [| reflexivity]; discriminate.
+      * inv H. eapply R; [| reflexivity]; discriminate.
+      * inv H. eapply R; [| reflexivity]; discriminate.
+    + unfold bind_builder in H. destruct (nthZ (st_labels s) id) as [[[| f p] | sec off] |]; inv H; try reflexivity; (eapply R; [| reflexivity]; discriminate).
+    + unfold bind_builder in H. destruct (nthZ (st_labels s) id) as [[[| f p] | sec off] |]; inv H; try reflexivity; (eapply R; [| reflexivity]; discriminate).
 Qed.
 
 (* the state after a call does not depend on the handler kind — in particular a throwing handler leaves exactly the
@@ -327,6 +372,11 @@ Proof.
       destruct l; [reflexivity |]. destruct b; [reflexivity |]. destruct (sec =? sec0); reflexivity.
     + destruct ((size =? 0) || is_pow2_up_to size 8); reflexivity.
     + destruct ((size =? 0) || is_pow2_up_to size 8); reflexivity.
+  - destruct fl; [unfold bind_assembler_atomic | unfold bind_builder | unfold bind_builder].
+    + destruct (nthZ (st_labels s) id) as [[p | sec off] |]; try reflexivity.
+      destruct (0 <? Z.min patchfail (count_resolvable (st_cur s) p)); reflexivity.
+    + destruct (nthZ (st_labels s) id) as [[[| f p] | sec off] |]; reflexivity.
+    + destruct (nthZ (st_labels s) id) as [[[| f p] | sec off] |]; reflexivity.
 Qed.
 
 (* ---------------------------------------------------------------- fresh-emitter equivalence *)
@@ -350,7 +400,8 @@ Lemma residual_state : forall fl a h s c s' o,
   fst (run fl a h s (residual fl c o)) = s'.
 Proof.
   intros fl a h s c s' o H F.
-  destruct c; try (rewrite (failed_step_state _ _ _ _ _ _ _ H F); [reflexivity | intros [_ [[i [p E]] _]]; discriminate E]).
+  destruct c; try (rewrite (failed_step_state _ _ _ _ _ _ _ H F); [reflexivity | intros [_ [[i [p E]] _]]; discriminate E]);
+    try (destruct fl; (rewrite (failed_step_state _ _ _ _ _ _ _ H F); [reflexivity | intros [_ [[i [p E]] _]]; discriminate E])).
   (* CBind *)
   cbn [residual]. destruct fl.
   - destruct (o_ret o =? kInvalidDisplacement) eqn:E.
@@ -383,7 +434,7 @@ Lemma residual_ok : forall fl a h s c s' o,
   forallb (fun x => negb (failed x)) (snd (run fl a h s (residual fl c o))) = true.
 Proof.
   intros fl a h s c s' o H F PF.
-  destruct c; try reflexivity.
+  destruct c; try reflexivity; try (cbn [residual]; destruct fl; reflexivity).
   cbn [residual]. destruct fl; try reflexivity.
   destruct (o_ret o =? kInvalidDisplacement) eqn:E; [| reflexivity].
   exfalso. cbn [step] in H. unfold bind_assembler in H. cbn [patchfail_free] in PF. apply Z.leb_le in PF.
